@@ -336,6 +336,20 @@ impl Report {
             wall,
             self.exhaustive && self.caps.is_empty()
         );
+        // replay mode of the non-DX checks (see main.rs): the whole check was re-run; did the recorded key show up again?
+        if let Ok(k) = std::env::var("VCHECK_REPLAY_KEY") {
+            let hit = self.new_violations.iter().find(|v| v.0 == k).map(|v| v.1.clone()).or_else(|| self.known_hit.get(&k).map(|e| e.1.clone()));
+            return match hit {
+                Some(d) => {
+                    println!("REPLAY: key {k} reproduced: {}", truncate(&d, 600));
+                    1
+                }
+                None => {
+                    println!("REPLAY: key {k} did not reproduce on this tree ({} other new key(s))", self.new_keys.len());
+                    0
+                }
+            };
+        }
         if !self.machinery_errors.is_empty() {
             return 2;
         }
